@@ -15,6 +15,10 @@ def Cfg.current : Cfg :=
 /-- does `extentLeafNode.blocks` refuse unwritten extents in the tree as it is now? -/
 def refuseUnwrittenCurrent : Bool := Ext4Ref.extentRefusesUnwritten
 
+/-- does DirEntry.Info() report a mode built from the directory entry's type alone (finding
+    ext4-direntry-info-mode-drops-permissions), as the tree is now? -/
+def dirInfoModeFromTypeCurrent : Bool := Ext4Ref.dirEntryInfoModeFromType
+
 def xattrTable : List (Nat × String) := Ext4Ref.xattrPrefixIdx.zip Ext4Ref.xattrPrefixStr
 
 end Diskfs.Ext4.Reader
